@@ -6,6 +6,8 @@ cd /verif
 [ -z "$(git -C /repo status --short)" ] || { echo "/repo is not clean"; exit 2; }
 out=/verif/seeded/MATRIX.txt
 : > $out.tmp
+# the runs below rewrite evidence files with results from mutated trees: keep the real ones
+rm -rf /verif/.build/evidence.keep && cp -r /verif/evidence /verif/.build/evidence.keep
 for d in seeded/C*/; do
   s=$(basename $d); prop=${s%%-*}
   base=""
@@ -30,5 +32,6 @@ m["detected_by"]=[f"./check {prop} quick"] if rc==1 else []
 json.dump(m,open(p,"w"),indent=1)
 PY
 done
+rm -rf /verif/evidence && mv /verif/.build/evidence.keep /verif/evidence
 mv $out.tmp $out
 cat $out | cut -c1-200
